@@ -4,6 +4,12 @@ from webob.compat import escape
 from webob.headers import _trans_key
 
 
+_hexdig = "0123456789ABCDEFabcdef"
+_hextobyte = {
+    (a + b).encode("ascii"): bytes.fromhex(a + b) for a in _hexdig for b in _hexdig
+}
+
+
 def unquote(string):
     if not string:
         return b""
@@ -13,7 +19,11 @@ def unquote(string):
         string = res[0]
 
         for item in res[1:]:
-            string += bytes([int(item[:2], 16)]) + item[2:]
+            try:
+                string += _hextobyte[item[:2]] + item[2:]
+            except KeyError:
+                # not a %XX escape: keep it literally, like urllib.parse
+                string += b"%" + item
 
     return string
 
